@@ -1857,6 +1857,11 @@ where
 
     let r = r_transcript.squeeze_challenge();
 
+    // An empty batch contains no invalid proof.
+    if guards.is_empty() {
+        return Ok(());
+    }
+
     let mut acc_guard = guards[0].clone();
     for guard in guards.into_iter().skip(1) {
         acc_guard.scale(r);
